@@ -24,10 +24,15 @@ func complete(e *errorspb.EncodedError, depth int) bool {
 		return false
 	}
 	chk := func(d *errorspb.EncodedErrorDetails) bool {
-		if d.FullDetails != nil && d.FullDetails.TypeUrl == "type.googleapis.com/cockroach.errorspb.EncodedError" {
-			var in errorspb.EncodedError
-			if err := types.UnmarshalAny(d.FullDetails, &in); err == nil {
-				return complete(&in, depth+1)
+		// Whatever the host part of the type URL says: if the payload
+		// resolves to an EncodedError (the resolver only looks at the part
+		// after the last '/'), it is a nested error and must be complete too.
+		if d.FullDetails != nil {
+			var da types.DynamicAny
+			if err := types.UnmarshalAny(d.FullDetails, &da); err == nil {
+				if in, ok := da.Message.(*errorspb.EncodedError); ok {
+					return complete(in, depth+1)
+				}
 			}
 		}
 		return true
